@@ -867,6 +867,24 @@ def check_creds_mirror(ctx, tool):
                        'and is decided differently by the tool and by '
                        'Enforcer.enforce' % (U(changed[0])[:40] if changed
                                              else 'filtered'))
+    # what the tool derives (is_admin from the command line, roles, ids) is
+    # not left to the token document: in a display `{k: v, **token}` the
+    # spread comes later and wins
+    for d in walk_no_nested(tool.node):
+        if not (isinstance(d, ast.Dict) and any(k is None for k in d.keys)):
+            continue
+        last = max(i for i, k in enumerate(d.keys) if k is None)
+        early = [k for k in d.keys[:last] if isinstance(k, ast.Constant)]
+        ctx.ob('C19.CREDS', not early, ctx.where(tool.module, d), tool.qual,
+               'credentials display %s' % U(d)[:60],
+               'derived credentials are written after the token\'s members'
+               if not early else
+               'the derived credential(s) %s stand before `**%s` in the '
+               'display: a member of that name in the token document '
+               'overrides what the tool derived (the library is given the '
+               'derived value)' % (
+                   sorted(k.value for k in early),
+                   U(d.values[last])[:30]))
     for key, (line, src) in sorted(lib.items()):
         ok = key in mine
         ctx.ob('C19.CREDS', ok, F, tool.qual,
